@@ -62,9 +62,16 @@ func execute(wd *worldDef, hist []int, trace func(string, ...interface{})) (out 
 	runBlock := func(ops []*op, kind string) bool {
 		h := x.C.Height + 1
 		b := harness.BlockSpec{NoCheck: true} // the proposer is not trusted; DeliverTx validates like CheckTx
+		var txOps []*op
 		for _, o := range ops {
+			if o.Kind == "absent" {
+				b.Absent = append(b.Absent, o.Absent)
+				continue
+			}
 			b.Txs = append(b.Txs, o.Tx)
+			txOps = append(txOps, o)
 		}
+		ops = txOps
 		r, herr := x.BlockAt(b, false, nil)
 		if r == nil {
 			out.Err = "no block result"
@@ -343,7 +350,7 @@ func Main(args []string) int {
 	rep.Assume("state identity: height + committed validator, purge, stake, evidence and option records; balances are not part of the identity (but compared with the model on every block)")
 	var never []string
 	for _, e := range evs {
-		if e.Kind != "empty" && !e.Hostile && total.Info["acc:"+e.Kind] == 0 {
+		if e.Kind != "empty" && e.Kind != "absent" && !e.Hostile && total.Info["acc:"+e.Kind] == 0 {
 			never = append(never, e.Kind)
 		}
 	}
